@@ -38,11 +38,19 @@ CHECKS['C19'] = {
 
 CHECKS['C02'] = {
     'level': 'other',
-    'technique': 'bounded stand-in: run-time contract of the real decoder against executable specs (CTC alpha recursion, reference beam search), exhaustive over a finite grid of matrices',
-    'text': ('BOUNDED, not proved: distinct transcripts, vis_sc <= CTC log-probability, exact bag when unpruned, equality with a reference '
-             'frame-synchronous k-best prefix beam search, rejection of unnormalised input, on every matrix with quarter-probability rows '
-             '(T<=3, 3 classes, k in {1,2,3,1e6}, default and non-pruning selector). The inductive invariant of the beam loop is not claimed.'),
-    'note': 'Trusted: executable specs (alpha recursion validated against enumeration of all alignments), float comparisons with 1e-6 tolerance; nothing outside the grid is decided.',
+    'technique': ('hybrid: deductive proof (own VC generator over the real Python AST + z3) of the per-frame prefix-search recurrences, the prefix '
+                  'bookkeeping and the distinct-prefix loop invariant of the decoder (12 functions); bounded run-time contract of the real decoder '
+                  'against executable specs (CTC alpha recursion, reference beam search) for the numeric clauses'),
+    'text': ('PROVED for all inputs (no-LM configuration): compute_Pb / compute_Pnb / compute_Plm / get_reduced_Pc / get_reduced_last_chars / '
+             'get_continuation_mask implement the prefix-search recurrences; find_new_prefixes, find_matching, get_new/old_prefixes_positions, '
+             'adjust_for_prefix_joining (mass of parent+last-character moved to the existing child and removed from the parent, exactly there); '
+             'the beam loop keeps pairwise distinct prefixes of real characters with non-zero probability (=> pairwise distinct transcripts), and '
+             'raises ValueError iff the normalisation deviation exceeds the tolerance.  top_k and the pre-selection are ASSUMED contracts.  '
+             'BOUNDED, not proved: vis_sc <= CTC log-probability, exact bag when unpruned, equality with a reference frame-synchronous k-best '
+             'prefix beam search, on every matrix with quarter-probability rows (T<=3, 3 classes, k in {1,2,3,1e6}, default and non-pruning selector).'),
+    'note': ('Trusted: pyvc; assumed contracts of multisort.top_k and of the pre-selection callable; blank probability non-zero per frame; logaddexp is an '
+             'uninterpreted commutative function; executable specs (alpha recursion validated against enumeration of all alignments), float '
+             'comparisons with 1e-6 tolerance; the numeric clauses are decided on the grid only.'),
 }
 CHECKS['C03'] = {
     'level': 'other',
